@@ -849,6 +849,91 @@ class Verifier(InspectMixin, QuantMixin, LoopMixin, ExprMixin, CallMixin, StmtMi
         self.st.ghost['gathers'] = g         # number of asyncio.gather calls (C10: concurrency is only entered there)
         self._add_axiom(g >= 0)
 
+    def cut_hook(self, stmt, fr) -> None:
+        """intermediate assertions of the contract under proof: `cut<N>` names the program point (right after an
+        assignment to a local whose right-hand side contains the given text), `cut<N>_*` clauses over the parameters
+        and locals are obligations there (and assumptions afterwards)"""
+        ct = getattr(self, 'current_contract', None)
+        if ct is None or not ct.extra.get('cut_clauses') or self.sub_depth > 0:
+            return
+        if getattr(fr, 'func', None) is None or fr.func.qualname != self.current_func.split('@')[0] or fr.is_spec:
+            return
+        names = [t.id for t in stmt.targets if isinstance(t, ast.Name)]
+        txt = ast.unparse(stmt.value)
+        for n, clauses in ct.extra['cut_clauses'].items():
+            point = ct.extra.get(f'cut{n}') or {}
+            if point.get('after_assign') not in names or point.get('value_contains', '') not in txt:
+                continue
+            env = self.frame_env(fr)
+            for cl in clauses:
+                self.oblige('cut', f'cut{n} (after `{point.get("after_assign")} = ...{point.get("value_contains")}...`): '
+                                   f'{cl.name}', self.clause_holds(cl, self.pick_env(cl, env)), ct.props_of(cl.name))
+
+    def comp_hook(self, e, fr, S) -> None:
+        """comprehension contracts of the function under proof (see contracts.py): obligations about the iterated
+        sequence, the filter condition and the produced element, each for a GENERIC element - they pin what the
+        comprehension computes; that a comprehension is an order-preserving filter-map is the engine's semantics"""
+        ct = getattr(self, 'current_contract', None)
+        if ct is None or not ct.extra.get('comp_clauses') or self.sub_depth > 0:
+            return
+        if getattr(fr, 'func', None) is None or fr.func.qualname != self.current_func.split('@')[0]:
+            return
+        gen = e.generators[0]
+        elt_txt = ast.unparse(e.elt)
+        for cname, kinds in ct.extra['comp_clauses'].items():
+            pat = ct.extra.get(f'comp_{cname}') or {}
+            if 'elt_contains' in pat and pat['elt_contains'] not in elt_txt:
+                continue
+            if 'has_if' in pat and bool(gen.ifs) != bool(pat['has_if']):
+                continue
+            env = dict(self.frame_env(fr))
+            n = z3.Length(S)
+            where = f'comprehension `{ast.unparse(e)[:60]}` ({cname})'
+
+            def props(cl):
+                return ct.props_of(cl.name)
+            for cl in kinds.get('source', []):
+                xs = self.alloc(builtin_class('tuple'))
+                self.set_seq(xs, S)
+                env2 = dict(env, xs=xs)
+                self.oblige('comprehension', f'{where}: {cl.name}', self.clause_holds(cl, self.pick_env(cl, env2)), props(cl))
+            if not (kinds.get('keeps') or kinds.get('element')):
+                continue
+            istar = self.fresh('gi', smt.I)
+            inr = z3.And(istar >= 0, istar < n)
+            x = self.elem(S, istar)                 # registered index: the facts defining S's elements are instantiated
+            for cl in kinds.get('keeps', []):
+                def cond():
+                    self.assume(inr)
+                    sub = Frame(fr.func, fr.module, parent=fr, cls=fr.cls)
+                    self.assign(gen.target, x, sub)
+                    ok = z3.BoolVal(True)
+                    for c in gen.ifs:
+                        ok = z3.And(ok, self.truthy(self.ev(c, sub)))
+                    return ok
+                C = self.merged_truth(cond, where, assuming=inr)
+                K = self.clause_holds(cl, self.pick_env(cl, dict(env, x=x)))
+                self.oblige('comprehension', f'{where}: the filter keeps an element exactly when {cl.name}',
+                            z3.Implies(inr, C == K), props(cl))
+            if kinds.get('element'):
+                saved_ghost = dict(self.st.ghost)
+                self.scratch_ghost()
+
+                def elt():
+                    self.assume(inr)
+                    return self.eval_elt(e, fr, x)
+                try:
+                    rs = self.sub_explore(elt)
+                finally:
+                    self.st.ghost = saved_ghost
+                for g, k, v, _ in rs:
+                    if k != 'ret':
+                        continue
+                    for cl in kinds['element']:
+                        f = self.clause_holds(cl, self.pick_env(cl, dict(env, x=x, y=v)))
+                        self.oblige('comprehension', f'{where}: {cl.name} (produced element vs. its source element)',
+                                    z3.Implies(z3.And(inr, g), f), props(cl))
+
     def havoc_containers(self) -> None:
         """coarse frame entry '$containers': the contents (items / entries) of ANY pre-existing list, dict or set may have
         changed - the container heap gets a new base; the cells of objects allocated by the analysed call are kept.
